@@ -32,8 +32,8 @@ func refGraphFast(nodes []refNode) *refSample {
 		key uint64
 		idx int32
 	}
-	var subs []entry              // (hash of the string without position p, mixed with p and the length)
-	full := map[uint64][]int32{}  // hash of the whole string -> nodes
+	var subs []entry                     // (hash of the string without position p, mixed with p and the length)
+	full := map[uint64][]int32{}         // hash of the whole string -> nodes
 	dels := make([][]uint64, len(nodes)) // deletion hashes of node i (consecutive duplicates removed)
 	var pre, pw []uint64
 	for i, n := range nodes {
